@@ -247,7 +247,7 @@ func samePairs(a, b []pair) bool {
 	return true
 }
 
-var c09Ops = []string{"sort", "copy", "mark", "reverse", "rotate"}
+var c09Ops = []string{"sort", "copy", "mark", "reverse", "rotate", "rewrite"}
 
 func c09ApplyOp(s *stats.Sample, op string, model []pair, r *core.Rec) *stats.Sample {
 	switch op {
@@ -308,6 +308,17 @@ func c09ApplyOp(s *stats.Sample, op string, model []pair, r *core.Rec) *stats.Sa
 			}
 		}
 		s.Sorted = false
+	case "rewrite":
+		// the caller changes a value (and the last weight) in place: same backing arrays,
+		// same lengths, different data (an involution, so the state space stays finite)
+		if n := len(s.Xs); n > 0 {
+			s.Xs[0] = 7.5 - s.Xs[0]
+			if s.Weights != nil && s.Weights[n-1] <= 3 {
+				s.Weights[n-1] = 3 - s.Weights[n-1]
+			}
+			s.Sorted = false
+			copy(model, pairsOf(s))
+		}
 	case "rotate":
 		if n := len(s.Xs); n > 1 {
 			x0 := s.Xs[0]
@@ -555,6 +566,28 @@ func c09Vec(c *C09VecCase, r *core.Rec) {
 	}
 	if len(m) > 0 && len(src) > 0 && &m[0] == &src[0] {
 		r.Fail("Map-alias", "Map returned its input storage")
+	}
+	// one vectorised function applied repeatedly (equal and different lengths): every
+	// result keeps its value after the later calls
+	if len(src) > 0 {
+		g := vec.Vectorize(f)
+		other := make([]float64, len(src))
+		for i := range other {
+			other[i] = src[len(src)-1-i] + 0.5
+		}
+		r1 := g(src)
+		keep1 := append([]float64{}, r1...)
+		r2 := g(other)
+		keep2 := append([]float64{}, r2...)
+		r3 := g(src[:len(src)/2])
+		r4 := g(src)
+		r.Trans(4)
+		for i := range src {
+			if !sameF(r1[i], f(src[i])) || !sameF(r2[i], f(other[i])) || !sameF(r4[i], f(src[i])) || (i < len(r3) && !sameF(r3[i], f(src[i]))) {
+				r.Fail("Vectorize-retained", "results of one vectorised function after later calls: first=%v (was %v), second=%v (was %v)", trunc(r1), trunc(keep1), trunc(r2), trunc(keep2))
+				break
+			}
+		}
 	}
 	mo := ref.ExactMoments(src)
 	if !r.Err("vec.Sum", ref.AbsDiff(vec.Sum(src), mo.Total), 2*float64(len(src)+1)*ref.Eps*mo.SumAbs) {
